@@ -193,6 +193,14 @@ def main(argv=None):
     for o in unknown:
       bad_names.setdefault(o['name'], []).append(o)
     for name_, obs in bad_names.items():
+      if obs[0]['kind'] == 'exc' and '/exc.unexpected.' in name_ and name_ not in baseline.get('obligations', {}):
+        # an exceptional exit that does not exist on the baseline tree and that the solvers cannot show unreachable
+        o = dict(obs[0])
+        o['status'] = 'sat'
+        o['regression'] = 'undeclared exception escapes on a path that does not exist on the baseline tree; reachability not refuted (solver: unknown)'
+        o['info'] = dict(o['info'], msg=o['info'].get('msg', '') + ' -- ' + o['regression'])
+        regressed.append(o)
+        continue
       if baseline.get('obligations', {}).get(name_, 0) > 0:
         o = dict(obs[0])
         o['status'] = 'sat'
